@@ -568,7 +568,7 @@ def run(chk, p, t):
         "the job identity field of each result class (JOB_KEY table) is in 1-1 correspondence with the enqueue loop variable",
     ]
     ea = EffectAnalysis(p, t)
-    for fn in (rule_r1, rule_r2, rule_r3, rule_r4):
+    for fn in (rule_r1, rule_r2, rule_r3, rule_r4, rule_r5):
         rid = "C08.R" + fn.__name__[-1]
         if not chk.wants(rid):
             continue
@@ -580,3 +580,83 @@ def run(chk, p, t):
                 rr.undecided(fn.__name__, str(e))
             else:
                 rr.error(fn.__name__, f"vanished anchor: {e}")
+
+
+def rule_r5(chk, p, t, ea):
+    r = chk.rule(
+        "C08.R5",
+        "each result reaches its own registration, exactly once",
+        3,
+        "enqueueJob maps the object reference of the submitted job to the registration that generated the "
+        "submission; join fetches the result of a finished reference and hands it to the registration stored under "
+        "that same reference, removes the entry, and processes every finished reference that ray.wait returns",
+    )
+    je = p.cls("resonaate.parallel.JobExecutor")
+    enq, join = je.methods.get("enqueueJob"), je.methods.get("join")
+
+    def f1():
+        reg = enq.params[1]
+        asg = {}
+        for n in walk_no_nested(enq.node):
+            if isinstance(n, ast.Assign):
+                asg[unparse(n.targets[0])] = unparse(n.value)
+        ok = asg.get("submission") == f"{reg}.generateSubmission()" and asg.get("remote_ref") == "self.getRemoteFunc().remote(submission)" and asg.get("self._result_reg_mapping[remote_ref]") == reg
+        app = [c for c in find_calls(enq.node, "append") if unparse(c.func.value) == "self._unfinished_jobs" and unparse(c.args[0]) == "remote_ref"]
+        if ok and len(app) == 1:
+            r.ok(enq.qualname, "ref = remote(registration.generateSubmission()); mapping[ref] = registration; ref queued once", enq.loc())
+        else:
+            r.violation(enq.qualname, f"enqueue:{sorted(asg.items())}", "enqueueJob does not map the submitted job's own reference to the registration that generated the submission (or does not queue it exactly once)", enq.loc())
+
+    r.guard(enq.qualname, f1)
+
+    def f2():
+        waits = [c for c in walk_no_nested(join.node) if isinstance(c, ast.Call) and unparse(c.func) == "ray.wait"]
+        require(len(waits) == 1, "join does not call ray.wait exactly once per round", join.node)
+        w = waits[0]
+        kws = {k.arg: unparse(k.value) for k in w.keywords}
+        bad = []
+        if unparse(w.args[0]) != "self._unfinished_jobs":
+            bad.append(f"waits on `{unparse(w.args[0])}`")
+        if kws.get("num_returns", "1") != "1":
+            bad.append(f"ray.wait(num_returns={kws.get('num_returns')}) but only the first finished job is processed: the others are dropped")
+        unp = [n for n in walk_no_nested(join.node) if isinstance(n, ast.Assign) and n.value is w]
+        if not (unp and isinstance(unp[0].targets[0], ast.Tuple) and [unparse(x) for x in unp[0].targets[0].elts] == ["finished_jobs", "self._unfinished_jobs"]):
+            bad.append("ray.wait's (ready, remaining) pair is not stored as (finished_jobs, self._unfinished_jobs)")
+        res = [n for n in walk_no_nested(join.node) if isinstance(n, ast.Assign) and isinstance(n.value, ast.Call) and unparse(n.value.func) == "ray.get"]
+        procs = find_calls(join.node, "processResults")
+        if not (len(res) == 1 and len(procs) == 1):
+            bad.append("result fetch / processResults not exactly once per round")
+        else:
+            key = unparse(res[0].value.args[0])
+            lookup = procs[0].func.value
+            if not (isinstance(lookup, ast.Subscript) and unparse(lookup.value) == "self._result_reg_mapping" and unparse(lookup.slice) == key and unparse(procs[0].args[0]) == unparse(res[0].targets[0])):
+                bad.append(f"the result of `{key}` is processed by `{unparse(lookup)}`: a result can reach another job's registration")
+            dels = [n for n in walk_no_nested(join.node) if isinstance(n, ast.Delete)]
+            if not (len(dels) == 1 and unparse(dels[0].targets[0]) == f"self._result_reg_mapping[{key}]"):
+                bad.append("the processed entry is not removed from the mapping")
+        loops = [n for n in walk_no_nested(join.node) if isinstance(n, ast.While)]
+        if not (loops and unparse(loops[0].test) == "self._unfinished_jobs"):
+            bad.append("join does not loop until no job is unfinished")
+        if bad:
+            r.violation(join.qualname, "join:" + ";".join(bad), "JobExecutor.join: " + "; ".join(bad), join.loc())
+        else:
+            r.ok(join.qualname, "each finished reference: result -> mapping[that reference].processResults, entry removed, until none is left", join.loc())
+
+    r.guard(join.qualname, f2)
+    subs = p.subclasses(je)
+    regs = {c.name for c in p.subclasses(p.cls("resonaate.parallel.Registration"))}
+    pair = {"PropagateExecutor": "asyncPropagate", "EstPredictExecutor": "asyncPredict", "EstUpdateExecutor": "asyncUpdateEstimate", "TaskingRewardExecutor": "asyncCalculateReward", "TaskExecutionExecutor": "asyncExecuteTasking"}
+    bad = []
+    for sc in subs:
+        g = sc.methods.get("getRemoteFunc")
+        rets = [n for n in walk_no_nested(g.node) if isinstance(n, ast.Return)] if g else []
+        got = unparse(rets[0].value) if rets else None
+        if pair.get(sc.name) is None:
+            continue
+        if got != pair[sc.name]:
+            bad.append(f"{sc.name}.getRemoteFunc returns {got} (expected {pair[sc.name]})")
+    if bad:
+        r.violation("executors", "remote-func:" + ";".join(bad), "an executor runs another batch's remote function: " + "; ".join(bad), je.loc())
+    else:
+        r.ok("executors", f"{len(subs)} executors each run their own remote function", je.loc())
+    _ = regs
